@@ -158,6 +158,9 @@ def families():
         "frozen_instance_input": {(1, 1): um(SM.Snapshot, lambda: SM.snap1()), (1, 2): um(SM.Snapshot, lambda: SM.Snapshot(1, ["a", "b"])),
                                   (2, 1): um(list[SM.Snapshot], lambda: [SM.snap2()]),
                                   (2, 2): um(dict[str, SM.Snapshot], lambda: {"k": SM.snap2()})},
+        # a rejection must stay a rejection: the same invalid input again, after valid ones, nested
+        "typeddict_missing_key": {(1, 1): um(I.TD, lambda: {"y": "s"}), (1, 2): um(I.TD, lambda: {"x": "1", "y": "s"}),
+                                  (2, 1): um(list[I.TD], lambda: [{"y": "t"}]), (2, 2): um(dict[str, I.TD], lambda: {"k": {"x": "2"}})},
         "dateparse": {(1, 1): um(datetime.datetime, lambda: "2020-01-01"), (1, 2): um(datetime.date, lambda: "2020-01-01"),
                       (2, 1): um(datetime.timedelta, lambda: "PT1S"), (2, 2): um(datetime.timedelta, lambda: 1)},
     }
@@ -312,4 +315,4 @@ class Zygote:
 FAMILY_NAMES = ["union_unmarshal", "union_marshal", "union_in_list", "instants", "instants_in_list", "text_carriers",
                 "bare_containers", "numbers", "same_name_classes", "string_refs", "recursive", "codec_configs", "dateparse",
                 "build_order", "build_order_nt", "same_routine_inputs", "same_routine_inputs2", "private_fields", "nested_text",
-                "nested_text2", "duration_classes", "temporal_text_targets", "equal_keys", "same_origin_kinds", "same_origin_kinds2", "value_classes", "retry_same_object", "subclass_after_base", "frozen_instance_input"]
+                "nested_text2", "duration_classes", "temporal_text_targets", "equal_keys", "same_origin_kinds", "same_origin_kinds2", "value_classes", "retry_same_object", "subclass_after_base", "frozen_instance_input", "typeddict_missing_key"]
